@@ -142,7 +142,8 @@ PROPS['C09'] = {
     'technique': 'bounded-exhaustive enumeration of (work item x entry point x burst size x position x variant) on the real library against the reference result of the work item',
     'level_text': 'Part 1 (props/c09.c): per algorithm row, direction and variant, 9 work items of unequal lengths go through the job API (checked / no-check), the asynchronous burst API (checked / no-check, burst sizes 1,2,3,7,8,9,15,16,17,33,127,128) and the synchronous cipher / hash / AEAD burst calls where documented (same sizes, checked / no-check); every job result is compared with the reference. Part 2 (props/c09d.c): the direct functions (GCM/GMAC/GHASH, SHA one-shot and one-block, MD5 one-block, ZUC 1/4/N, SNOW3G 1/2/4/8/N(+multikey)/F9, KASUMI 1/2/3/4/N/F9, 12 CRCs, HEC, ChaCha20-Poly1305 direct, QUIC helpers, single-block CFB) with n below/at/above the lane count, unequal per-buffer lengths in non-sorted order, distinct IVs/keys, buffers end-flush against guard pages, and NULL / over-limit arguments.',
     'level_note': 'Entry points the header does not document for an algorithm are not exercised; AEAD suites only in their documented chain order.',
-    'drivers': [{'name': 'c09', 'src': ['props/c09.c'] + ALG, 'cfgs': ['std'], 'args': ''}],
+    'drivers': [{'name': 'c09', 'src': ['props/c09.c'] + ALG, 'cfgs': ['std'], 'args': ''},
+                {'name': 'c09d', 'src': ['props/c09d.c'] + ALG, 'cfgs': ['std'], 'args': 'C09'}],
     'deadline': {'quick': 900, 'thorough': 3000},
     'assumptions': ['reference model as in C01-C03'],
 }
@@ -169,6 +170,19 @@ PROPS['C14'] = {
     ],
     'deadline': {'quick': 900, 'thorough': 3000},
     'assumptions': ['reduced-ring build differs from the shipped one only in the ring size'],
+}
+
+PROPS['C18'] = {
+    'level': 'exploration',
+    'technique': 'register/stack/flag invariant evaluated by a call trampoline after every library call of the bounded-exhaustive direct-API, multi-call-state and schedule enumerations',
+    'level_text': 'Every library call made by the direct-API driver (props/c09d.c: all direct functions, n below/at/above lane counts, 5 length profiles), by the multi-call exploration (props/c10.c: all reachable (consumed, context) states of GCM / GMAC / ChaCha20-Poly1305 init/update/finalize and SGL jobs), by the schedule enumeration (props/c04.c: job and burst API over every algorithm row and mixed suites) and by the key-helper driver goes through an assembly trampoline that plants sentinels in rbx, rbp, r12-r15, records rsp, the direction flag and MXCSR immediately after ret and compares; all 7 variants. Any other check of this framework reports the same invariant for its own calls.',
+    'level_note': 'x87 control word and the red zone are not checked; vector registers are caller-saved in the SysV ABI and therefore not part of the invariant (the Windows ABI is not reachable on this host).',
+    'only_own': True,
+    'drivers': [{'name': 'c09d', 'src': ['props/c09d.c'] + ALG, 'cfgs': ['std'], 'args': 'C18'},
+                {'name': 'c10', 'src': ['props/c10.c'] + ALG, 'cfgs': ['std'], 'args': 'C18'},
+                {'name': 'c04', 'src': ['props/c04.c'] + ALG, 'cfgs': ['std'], 'args': ''}],
+    'deadline': {'quick': 900, 'thorough': 3000},
+    'assumptions': ['System V AMD64 calling convention'],
 }
 
 NOT_APPLICABLE = {}
